@@ -30,7 +30,7 @@ from harness.core import canon, err_kind
 
 PID = 'C19'
 TITLE = 'Re-batching conserves rows, order and column alignment'
-LEAN_MODULES = ['MlModel.Properties.C19', 'MlModel.Witness.C19']
+LEAN_MODULES = ['MlModel.Properties.C19', 'MlModel.Properties.C19Pipe', 'MlModel.Witness.C19']
 TRUSTED = [
     'TreeFn._iterate is modelled as two re-batchers around one call per batch (treeFn); tree key selection / output '
     'assembly (_get_inputs/_get_outputs/_normalize_outputs) is exercised by the via-cases but not modelled',
@@ -450,6 +450,12 @@ def gen_via(ctx):
     case = make_via(via, sizes, rng.randrange(1, 4), rng.randrange(1, 4), nin, [rng.choice(KINDS5) for _ in range(nin)],
                     g, [rng.choice(KINDS5) for _ in range(n_out(g, nin))], malform='ragged')
     case['batches'][rng.randrange(n)][rng.randrange(nin)]['r'].append(99)
+    if rng.random() < 0.5:
+      # with ignore_error the ValueError of the FIRST re-batcher is swallowed by map_ignore_error as well (it is raised by
+      # next() of the iterator the calls are mapped over): the stream just ends there (C12's finding F-C12-fnbatch-lost); the
+      # model (treeFnGen) says the same; no oracle verdict (malformed input)
+      case['ignore_error'] = True
+      case['malform'] = 'ragged-skip'
     yield case
   # Assign with batch boundaries that differ from the incoming ones: known finding F-C19-assign (documented, few cases)
   for sizes, fb, b in [((5, 1), 0, 2), ((5, 1), 4, 3), ((5, 1), 0, 6), ((2, 2, 2), 0, 3)]:
@@ -655,7 +661,7 @@ REQUIRED_TYPED = ([f'elem:seq:{f}:merged' for f in SEQ_FAMS] + [f'elem:array:{f}
                    'pad:nd:float:int', 'pad:nd:f32:int', 'pad:nd:str:str', 'pad:nd:int:float', 'pad:nd:bool:int',
                    'pad:seq:float:int', 'pad:seq:str:str', 'pad:seq:int:float', 'pad:seq:mixed:int', 'pad:seq:none:int',
                    'pad:seq:nested:int', 'pad:seq:bool:str', 'pad:seq:int:bool'])
-REQUIRED_PIPELINE = ['flush:multi-slice', 'flush:carry-remainder', 'exhausted:remainder', 'malformed:ragged',
+REQUIRED_PIPELINE = ['flush:multi-slice', 'flush:carry-remainder', 'exhausted:remainder', 'malformed:ragged', 'malformed:ragged-skip',
                      'merge:>=2-chunks', 'nd-array:merge', 'zero-rows-buffered',
                      'rowfn:expand:fb=b', 'rowfn:expand:fb!=b', 'rowfn:expand:fb=0', 'rowfn:drop:fb=b', 'rowfn:drop:fb!=b',
                      'rowfn:drop:fb=0', 'rowfn:empty-intermediate-batch']
